@@ -20,22 +20,22 @@ P = {
  "C05": ("O1 lexer + introduced-in-protocol column over every opcode occurrence",
          "Every opcode occurrence (body and collapse tail) of safe-matrix outputs is compared with the protocol column of the CPython table; PROTO presence/uniqueness/argument and 7-bit cleanliness of protocol 0 are checked on the bytes.",
          "5.C05"),
- "C06": ("O1 lexer positions/arguments of FRAME on final bytes, incl. outputs with post-emission rewrites (hook Rewrite events)",
+ "C06": ("O1 lexer positions/arguments of FRAME on final bytes (library outputs incl. post-emission rewrites, reused generators, files written by the CLI over older files)",
          "FRAME count, offset and length are re-derived from the final bytes for the full matrix incl. unsafe TypeConfusion at rate 1 (rewrites after emission), with evidence of how many framed outputs and rewrites were seen.",
          "5.C06"),
- "C07": ("byte equality of repeated executions across instances, 16 threads with perturbed schedules, separate processes, rayon widths",
+ "C07": ("byte equality of repeated executions across instances, 16 threads with perturbed schedules, separate processes with permuted histories, isolated single-case processes, rayon widths",
          "Equal (config, entropy) cases are generated on the main thread twice, on 16 concurrent threads in shuffled orders with random yields, in >= 8 separately spawned processes (fresh ASLR/hash seeds, different TZ/cwd) and through the CLI batch mode under RAYON_NUM_THREADS 1/2/3/16; full bytes are compared. Thorough adds a ThreadSanitizer build of the threaded workload.",
          "5.C07"),
  "C08": ("history replay against a fresh generator (Rust API and Python PickleMutator)",
          "Every history of length <= 3 over {generate, generate_from_arbitrary(x0|x1), reset} and sampled longer ones, on configurations of all protocols; every generation call is compared byte-for-byte with a fresh generator given only that call; the Python PickleMutator.mutate path is exercised against the built extension.",
          "5.C08"),
- "C09": ("catch_unwind + Err/empty monitor + hook step bound + child-process exit status over exhaustive short inputs and hostile configs",
-         "All 65 793 byte strings of length <= 2 x 6 protocols x a configuration set (exhaustive sub-space), the full matrix with NaN/out-of-range rates, and child-process cases (20k+ opcodes, TUPLE1 chains on a 2 MiB stack, 8 KiB inputs). Thorough adds ASan and valgrind memcheck runs.",
+ "C09": ("catch_unwind + Err/empty monitor + hook step bound + per-call CPU work bound + child-process exit status over exhaustive short inputs, periodic inputs and hostile configs",
+         "All 65 793 byte strings of length <= 2 x 6 protocols x a configuration set (exhaustive sub-space), every two-byte pattern repeated to 1000 bytes at 400 opcodes, the full matrix with NaN/out-of-range rates, and child-process cases (20k+ opcodes, TUPLE1 chains on a 2 MiB stack, 8 KiB inputs, hostile buffer sizes). 'Never loops forever' is decided as a bound on emitted opcodes and on the CPU time consumed by the generating thread (>= 60x the slowest generation observed); a wall-clock watchdog firing is inconclusive. Thorough adds ASan, valgrind memcheck and a debug-build run.",
          "5.C09"),
- "C10": ("O1 opcode histogram by decoded position under the four flag combinations, with positive control",
+ "C10": ("O1 opcode histogram by decoded position under the four flag combinations (library, CLI flags, action-wrapper switches), with positive control",
          "EXT*/buffer opcodes are looked for at decoded opcode positions (never raw bytes) in outputs of the full matrix incl. unsafe for all four flag combinations; the run is inconclusive unless the opcodes do occur with the flag on.",
          "5.C10"),
- "C11": ("hook event log (T, choices, per-step byte ranges, body/tail boundary) cross-checked with O1 opcode counts",
+ "C11": ("hook event log (T, choices, per-step byte ranges, body/tail boundary) cross-checked with O1 opcode counts; CLI --min/--max-opcodes outputs counted too",
          "T, the number of choices/emissions, one-opcode-per-body-step, tail length <= 2T+1 and the total bound are checked per execution over an 18-point (min,max) grid incl. equal/inverted/zero, all mutator subsets, both entropy modes.",
          "5.C11"),
  "C12": ("union of decoded opcode sets over a fixed seed block (existential witnesses per (protocol, opcode))",
@@ -44,7 +44,7 @@ P = {
  "C13": ("byte comparison of CLI / batch / action wrapper / Python bindings against the library via an independent option mapping",
          "The built binary, scripts/action-run.sh and the built _native extension are driven over an option matrix; every produced file / returned value is compared with library bytes for the independently mapped configuration; batch file sets, exit statuses and injected write faults are checked.",
          "5.C13"),
- "C14": ("per-thread counting allocator: live heap before Generator::new vs after drop, reproducible x3; long reuse histories",
+ "C14": ("per-thread counting allocator: live heap before Generator::new vs after drop, reproducible x3; long reuse histories; equal live heap after 1/4/10 passes over a fixed cycle; mallinfo2 probe of the Python layer",
          "Exact live-bytes/blocks deltas for every case of the full matrix under three lifecycles, alias-heavy steered pickles and long generate/reset histories; coverage shows how many analysed outputs contained aliasing insertions / identity cycles. Thorough adds LeakSanitizer and valgrind memcheck as second opinions.",
          "5.C14"),
  "C15": ("hook Draw/Mutated/Rewrite events at rate 0 and 1 + direct calls of every mutator on hostile entropy",
